@@ -1,5 +1,6 @@
 """C02 — framing is exact: declared size = bytes written; header arithmetic agrees between writers and readers."""
 from .. import hir as H
+from .. import wowm
 from ..containers import container_pairs, state, writer_fns, _synth_flag_owner
 from ..layoutcmp import BUILTIN_TYPES
 from ..sizeexpr import SE, SizeEval, Unk, WriteSize
@@ -63,10 +64,45 @@ class Sizes:
         return r
 
 
+def check_self_size_member(ctx, a, p, items, lpath, wfn, key):
+    """a member declared `= self.size` carries the number of bytes that follow it: the writer must emit size() minus the bytes up to
+    and including that member (all of them fixed-width), taken from the container's own size()"""
+    declared = [m for m in a.members if isinstance(m, wowm.Decl) and m.value is not None and m.value[1] == "self.size"]
+    acc = 0
+    fixed = True
+    found = 0
+    for it in items:
+        ops = (it.get("src") or {}).get("ops", []) if it["k"] in ("int", "float") else []
+        if it["k"] in ("int", "float"):
+            acc += it["w"]
+        elif it["k"] == "constbytes":
+            acc += len(it["bytes"])
+        elif it["k"] in ("zlib-start", "zlib"):
+            return found  # inside a compressed body the byte accounting is that of the (known-finding) compressed writers
+        else:
+            fixed = False
+        sz = next((o for o in ops if o[0] == "size"), None)
+        if sz is None:
+            continue
+        found += 1
+        K = sum(o[1] for o in ops if o[0] == "sub") - sum(o[1] for o in ops if o[0] == "add")
+        if not sz[1].endswith(lpath.split("crate::")[-1] + "::size") and not sz[1].endswith("::" + a.name + "::size"):
+            ctx.violate("size.self-field", f"{key}|own", f"{a.name} ({p['scope']}): the self-size member is computed from {sz[1]}, not from the message's own size()", wfn["file"], wfn["line"])
+        elif not fixed:
+            ctx.violate("size.self-field", f"{key}|position", f"{a.name} ({p['scope']}): the self-size member follows a variable-sized member, the bytes before it are not a constant — review", wfn["file"], wfn["line"])
+        elif K != acc:
+            ctx.violate("size.self-field", f"{key}|offset", f"{a.name} ({p['scope']}): the self-size member is written as size() - {K}, but {acc} bytes are written up to and including it: "
+                        f"the field must hold the number of bytes that follow it (size() - {acc}); a reader that trusts the field mis-frames the message by {acc - K} byte(s)", wfn["file"], wfn["line"])
+    if len(declared) != found:
+        ctx.violate("size.self-field", f"{key}|count", f"{a.name} ({p['scope']}): the definition declares {len(declared)} `= self.size` member(s) but the writer derives {found} value(s) from size()", wfn["file"], wfn["line"])
+    return found
+
+
 def run_size(ctx):
     S = Sizes()
     g = S.g
     n = 0
+    n_self = 0
     n_const = 0
     seen = set()
     for p in container_pairs():
@@ -80,6 +116,7 @@ def run_size(ctx):
         items, wcrate, wfn, ex = raw
         crate, lpath = split_gpath(p["rust"])
         key = f"{p['rust']}"
+        n_self += check_self_size_member(ctx, a, p, items, lpath, wfn, key)
         try:
             ws = WriteSize(g, S.atom_types, BUILTIN_TYPES, S.struct_const).seq(items).normalise()
         except Unk as e:
@@ -116,6 +153,7 @@ def run_size(ctx):
                         f"{a.name}: size() = {ss.show()}  but write_into_vec emits  {ws.show()}", sfn["file"], sfn["line"])
         if n <= 4:
             ctx.sample({"container": a.name, "rust": p["rust"], "size": ss.show(), "written": ws.show()})
+    ctx.rule("size.self-field", n_self, floor=10, note="members declared `= self.size`: written value = own size() minus the (constant) bytes up to and including the member")
     ctx.rule("size.write-agree", n, floor=SIZE_FLOOR, note=f"size() vs bytes written per container ({n_const} constant-sized)")
     return n
 
@@ -145,6 +183,9 @@ def F_fn(crate, comp):
         if r:
             return r
     return None
+
+
+N_SELF = [0]
 
 
 def run_leaf_writer_sizes(ctx):
